@@ -37,7 +37,9 @@ func sortedMimes(accept string) (sorted []mime) {
 			if len(qAndWeight) == 2 && strings.Trim(qAndWeight[0], " ") == qFactorWeightingKey {
 				f, err := strconv.ParseFloat(qAndWeight[1], 64)
 				if err != nil {
-					traceLogger.Printf("unable to parse quality in %s, %v", each, err)
+					if trace {
+						traceLogger.Printf("unable to parse quality in %s, %v", each, err)
+					}
 				} else {
 					sorted = insertMime(sorted, mime{typeAndQuality[0], f})
 				}
